@@ -120,6 +120,10 @@ func certFor(kind string) *KeyPair {
 		return &p.SrvExpired
 	case "short":
 		return &p.SrvShort
+	case "expiring-soon":
+		return &p.SrvExpiring
+	case "not-yet-valid":
+		return &p.SrvNotYet
 	}
 	return nil
 }
